@@ -739,11 +739,16 @@ where
 
     /// Create backing file with initial size
     fn create_backing_file(path: &Path, size: u64) -> Result<()> {
+        // Same pattern as sync(): build the file under a temporary name and rename it into place,
+        // so that re-creating a vector over an older file never leaves a mixture of the two
+        let mut tmp_path = path.as_os_str().to_owned();
+        tmp_path.push(".tmp");
+        let tmp_path = std::path::PathBuf::from(tmp_path);
         let mut file = OpenOptions::new()
             .create(true)
             .write(true)
             .truncate(true)
-            .open(path)
+            .open(&tmp_path)
             .map_err(|e| ZiporaError::io_error(&format!("Failed to create file: {}", e)))?;
 
         // Set file size
@@ -753,6 +758,9 @@ where
             .map_err(|e| ZiporaError::io_error(&format!("Failed to write: {}", e)))?;
         file.sync_all()
             .map_err(|e| ZiporaError::io_error(&format!("Failed to sync: {}", e)))?;
+        drop(file);
+        std::fs::rename(&tmp_path, path)
+            .map_err(|e| ZiporaError::io_error(&format!("Failed to move file into place: {}", e)))?;
 
         Ok(())
     }
